@@ -578,7 +578,9 @@ pub fn make(spec: &Value, rng: &mut Rng) -> Result<Rig, String> {
         "SigMFSource<i32>" => {
             let data = gen_data::<i32>(spec, 0, rng);
             SRC_DATA.with(|d| *d.borrow_mut() = data.iter().map(|x| x.num().unwrap_or(NONUM)).collect());
-            let path = sigmf_files(spec, "ri32_le", &le_bytes_i32(&data));
+            let mut bytes = le_bytes_i32(&data);
+            bytes.extend(std::iter::repeat(0xEE).take(pu(spec, "extra", 0) as usize));   // trailing partial sample
+            let path = sigmf_files(spec, "ri32_le", &bytes);
             let mut bld = SigMFSourceBuilder::<i32>::new(path);
             if let Some(r) = repeat_of(spec) {
                 bld = bld.repeat(r);
